@@ -867,6 +867,7 @@ def t_enc(t):
                 _sfe.soft_constraints_grouped_by_weight = _orig
             if inst is not None:
                 inst.append(",".join("%d:%d" % (k, w) for k, w in captured["w"]) if "w" in captured else "-")
+                inst.append("1" if p.empty else "0")
             e["hard"] = hard
             e["soft"] = soft
             e["inst"] = inst
